@@ -76,6 +76,8 @@ def gen_scenario(rng, small=False):
         "exec_start_delay": rng.choice([0.0, 0.5, 2.0, 4.0, 8.0]),
         # ambient configuration that must be behaviour-neutral
         "log_level": rng.choice([None, None, "DEBUG", "INFO"]),
+        # actors in different processes: messages arrive as pickled copies (as with Thespian's multiprocess bases) or by reference
+        "pickle_messages": rng.random() < 0.5,
     }
     if sc["max_wakeup_delay"] > 0:
         sc["delay_bias"] = {rng.choice(["w0", "w1", "w2", "*"]): rng.choice([0.3, 0.7, 0.95])}
